@@ -1,7 +1,7 @@
 (* Props/C06.v — property C06: EER is a crossing point. Statements only.
    Model of the repaired tree (fix 8b94371: strict comparisons in the perfect-separation shortcut).
    succ/pred = np.nextafter; fuel = bound on bisection iterations (64 in the executable instance). *)
-From SA Require Import Model.Eer Proofs.InvIncrFacts Proofs.RoundtripFacts Proofs.EerFacts.
+From SA Require Import Model.Eer Proofs.InvIncrFacts Proofs.RoundtripFacts Proofs.EerFacts Proofs.EerGapFacts.
 Open Scope Q_scope.
 
 (* 0 <= e <= 1 and e never exceeds the smaller of the two hard-sample fractions: all inputs with both
@@ -34,12 +34,22 @@ Theorem C06_fpr_side :
 Proof. exact eer_fpr_side. Qed.
 Print Assumptions C06_fpr_side.
 
-(* FNR side, _partial: proved under the exact-root hypothesis (the returned threshold is also the
-   FNR-side threshold for e).  The full clause needs the bisection tolerance to be small against the
-   gaps of the positives (rho = N_neg * max gap(neg) * xtol / min gap(pos) < 1, DESIGN A.4); without
-   that it is FALSE on the real code: clustered positives 0.5 + i*1.25e-12, neg = [0,1] give FNR(t)=1.0
-   at e=0.25 (known_findings.json, open).  The oracle checks the clause on every run and classifies
-   failures by rho. *)
+(* FNR side, _partial: proved whenever no scored positive is decided differently by the returned threshold and by
+   the FNR-side threshold for e ([not_separated]: the two thresholds lie in the same gap between consecutive
+   positives; in particular when they coincide, the exact-root case below).  The full clause needs that
+   condition: it is guaranteed when the bisection tolerance is small against the gaps of the positives
+   (rho = N_neg * max gap(neg) * xtol / min gap(pos) < 1, DESIGN A.4); without it the clause is FALSE on the real
+   code: clustered positives 0.5 + i*1.25e-12, neg = [0,1] give FNR(t)=1.0 at e=0.25 (known_findings.json, open).
+   The oracle checks the clause on every run and classifies failures by rho. *)
+Theorem C06_fnr_side_same_gap_partial :
+  forall (succ pred : Q -> Q), (forall x, x < succ x) -> (forall x, pred x < x) ->
+  forall (fuel : nat) (s : scores) (t e : Q),
+  proper s -> ssorted (pos s) -> eer succ pred fuel s = Ret (t, e) ->
+  not_separated s t (t_fnr succ pred s e) ->
+  within1 (cfn (cm s (Fin t))) (e * inject_Z (len (pos s) + easy_pos s)).
+Proof. exact eer_fnr_side_same_gap. Qed.
+Print Assumptions C06_fnr_side_same_gap_partial.
+
 Theorem C06_fnr_side_partial :
   forall (succ pred : Q -> Q), (forall x, x < succ x) -> (forall x, pred x < x) ->
   forall (fuel : nat) (s : scores) (t e : Q),
@@ -59,5 +69,16 @@ Print Assumptions C06_find_root_range.
 Example C06_example :
   match eer succ64 pred64 64 (mk_scores [1#1; 3#1; 5#1; 7#1] [0#1; 2#1; 4#1; 6#1] 0 0 Pos Pos false) with
   | Ret (t, e) => Qeqb e (5#16) && Qeqb t (7#2)
+  | Raise => false end = true.
+Proof. vm_compute. reflexivity. Qed.
+
+(* the same-gap hypothesis is satisfiable where the exact-root one is not: here the returned threshold differs from
+   the FNR-side threshold for e, and no positive lies between them *)
+Example C06_same_gap_example :
+  let s := mk_scores [1#1; 3#1; 5#1; 8#1; 9#1] [0#1; 2#1; 4#1; 6#1] 0 0 Pos Pos false in
+  match eer succ64 pred64 64 s with
+  | Ret (t, e) =>
+      forallb (fun p => Bool.eqb (dec Pos Pos p (Fin t)) (dec Pos Pos p (Fin (t_fnr succ64 pred64 s e)))) (pos s)
+      && negb (Qeqb t (t_fnr succ64 pred64 s e))
   | Raise => false end = true.
 Proof. vm_compute. reflexivity. Qed.
